@@ -2874,6 +2874,15 @@ class _Fold(ast.NodeTransformer):
             return ast.copy_location(ast.Constant(value=not n.operand.value), n)
         return n
 
+    def visit_Attribute(self, n):
+        # `<namedtuple row display>.field` is the element at the field's position (namedtuple_rows keeps the field names on the display):
+        # `[col.width for col in TABLE]` over a table of rows, once `col` is a row
+        self.generic_visit(n)
+        fs = getattr(n.value, "_nt_fields", None)
+        if fs and isinstance(n.value, ast.Tuple) and isinstance(n.ctx, ast.Load) and n.attr in fs and len(fs) == len(n.value.elts):
+            return ast.copy_location(n.value.elts[fs.index(n.attr)], n)
+        return n
+
     def visit_Subscript(self, n):
         self.generic_visit(n)
         if not isinstance(n.ctx, ast.Load):
